@@ -31,14 +31,15 @@ type cfg struct {
 type counters struct{ swapsReported, interiorRemove, setReports int64 }
 
 type inst struct {
-	c       *cfg
-	q       *heapq.Queue[int]
-	desc    bool
-	held    map[int]bool // all held elements
-	tracked map[int]bool // held elements that entered through Add or Set
-	pos     map[int]int  // last reported position
-	ncb     int64
-	cnt     *counters
+	c             *cfg
+	q             *heapq.Queue[int]
+	desc          bool
+	held          map[int]bool // all held elements
+	tracked       map[int]bool // held elements that entered through Add or Set
+	pos           map[int]int  // last reported position
+	ncb           int64
+	cnt           *counters
+	emptied, used bool
 }
 
 func asc(a, b int) int { return a - b }
@@ -125,6 +126,9 @@ func (s *inst) Key() string {
 		}
 		fmt.Fprintf(&sb, ",%d@%d/%d", v, p, t)
 	}
+	if s.emptied {
+		sb.WriteString(" E")
+	}
 	return sb.String()
 }
 
@@ -209,6 +213,11 @@ func (s *inst) Apply(o op, check bool) *mc.Failure {
 		}
 	default:
 		return mc.Failf(0, "unknown op %v", o)
+	}
+	if len(s.held) > 0 {
+		s.used = true
+	} else if s.used {
+		s.emptied = true
 	}
 	if !check {
 		return nil
